@@ -17,7 +17,11 @@ for d in sorted(glob.glob('/verif/seeded/C*-*')):
                 break
     viol = ', '.join(sorted(set(cr.get('violations', []))))
     det = 'yes' if cr.get('detected') else '**no**'
-    if not cr.get('detected'):
+    # variants G: the stored result is the FIRST pass against the frozen snapshot of round six; the ones missed there
+    # were answered in that round (see the round-six paragraph) and have not been re-run since
+    if sid.endswith('-G') and not cr.get('detected'):
+        det = 'no at first pass; answered in round six (not re-run since)'
+    elif not cr.get('detected'):
         missed.append(sid)
     rows.append('| %s | %s | %s | %s |' % (sid, det, viol[:110] or '-', what[:110].replace('|', '/')))
 table = '| seed | detected by its property\'s quick check | violated obligations (harness/label) | what the change is |\n|---|---|---|---|\n' + '\n'.join(rows) + '\n'
